@@ -22,6 +22,7 @@ Inv_Even  == IsS => \A k \in Lags : C(c.x, k) = C(c.x, 0 - k)
 Inv_Bound == IsS => \A k \in Lags : AbsT(C(c.x, k)) <= C(c.x, 0)                 \* |acf| <= 1 = acf(0)
 Inv_Shift == IsS => \A k \in 0..2 : C([i \in 1..n |-> c.x[i] + 5], k) = C(c.x, k)
 Inv_Diff  == IsS => Difference(CumSum(c.x)) = Tail(c.x) /\ CumSum(Difference(c.x)) = [i \in 1..(n - 1) |-> c.x[i + 1] - c.x[1]]
+Inv_DiffK == IsS => \A d \in 0..n : Len(DiffK(c.x, d)) = n - d
 Inv_YW    == IsS => \A p \in 1..2 : YWDefined(c.x, p) => YWHolds(c.x, YuleWalker(c.x, p))
 Inv_Predict == ~IsS => LET d == [i \in 1..Len(c.data) |-> R(c.data[i])] IN
                   /\ PredictCode(d, c.phi, c.mu, H) = PredictSpec(d, c.phi, c.mu, H)
@@ -32,7 +33,7 @@ Emit == IF IsS THEN
           PrintT(<<"CASE", ToJson([fam |-> "series", x |-> c.x, c0 |-> C(c.x, 0),
                    acovf |-> [k \in 1..n |-> RJ(Acovf(c.x, k - 1))],
                    acf |-> IF NonConst THEN [k \in 1..n |-> RJ(Acf(c.x, k - 1))] ELSE <<>>,
-                   mean |-> RJ(MeanT(c.x)),
+                   mean |-> RJ(MeanT(c.x)), diffs |-> [d \in 1..n |-> DiffK(c.x, d)],
                    yw1 |-> IF YWDefined(c.x, 1) THEN RSeqJ(YuleWalker(c.x, 1)) ELSE <<>>,
                    yw2 |-> IF n >= 3 /\ YWDefined(c.x, 2) THEN RSeqJ(YuleWalker(c.x, 2)) ELSE <<>>])>>)
         ELSE PrintT(<<"CASE", ToJson([fam |-> "forecast", phi |-> RSeqJ(c.phi), data |-> c.data, mu |-> RJ(c.mu), h |-> H,
